@@ -185,6 +185,11 @@ pub fn oracle(doc: &[u8], obs: &mut Obs) -> Result<(), Fail> {
     if let Err((k, msg)) = cmp_node(&root, doc, &walk(&dv, false), false, &mut p) {
         fail!(format!("C13/lazy/try_from/{k}"), "Value::try_from(LazyValue) differs from the reference: {msg}");
     }
+    // ... and it is the DOM a direct parse of the raw text gives, in the same number representation
+    // (raw literals in the arbitrary_precision build)
+    let direct: Value = sonic_rs::from_str(s).map_err(|e| Fail::new("C13/lazy/try_from", format!("from_str::<Value> failed on the raw text: {e}")))?;
+    let (wa, wb) = (walk(&dv, true), walk(&direct, true));
+    ensure!(wa == wb, "C13/lazy/try_from/representation", "Value::try_from(LazyValue) = {} but from_str::<Value>(raw text) = {}", trunc(&wa.dump(), 200), trunc(&wb.dump(), 200));
     // struct fields (borrowed lazy + owned lazy), value placed twice
     let wrapped = format!("{{\"v\": {s} ,\"o\":{s}}}");
     let (wroot, _) = refjson::parse(wrapped.as_bytes()).map_err(|_| Fail::new("C13/generator", "wrapper malformed"))?;
@@ -224,6 +229,8 @@ pub fn oracle(doc: &[u8], obs: &mut Obs) -> Result<(), Fail> {
     // to_lazyvalue of the DOM value: its raw text is the compact serialization
     let compact = ser(&dv)?;
     let (croot, _) = refjson::parse(compact.as_bytes()).map_err(|_| Fail::new("C13/generator", "compact output malformed"))?;
+    // (a conversion that failed half-way just before must not leak into this one)
+    ensure!(sonic_rs::to_lazyvalue(&std::collections::BTreeMap::from([((1u8, 2u8), 3u8)])).is_err(), "C13/to_lazyvalue/accepts-bad-key", "to_lazyvalue accepted a tuple key");
     let tl = sonic_rs::to_lazyvalue(&dv).map_err(|e| Fail::new("C13/to_lazyvalue/error", format!("{e}")))?;
     check_owned("owned(to_lazyvalue)", &tl, &croot, compact.as_bytes(), 0)?;
     Ok(())
